@@ -1,5 +1,6 @@
 import OdakProofs.Lemmas.Losses
 import OdakProofs.Lemmas.GenLosses
+import OdakProofs.Lemmas.GenStateMachines2
 
 /-! # C17 – losses vanish at identity, are non-negative, and do not depend on call history -/
 namespace Odak
@@ -408,5 +409,313 @@ open Odak.Gen in
 theorem C17_gen_radial_basis_range (value epsilon : ℝ) :
     0 < radialBasisG value epsilon ∧ radialBasisG value epsilon ≤ 1 ∧ radialBasisG 0 epsilon = 1 := by
   rw [gen_radialBasisG_eq, gen_radialBasisG_eq]; exact radialBasis_range value epsilon
+
+end Odak
+
+/-! # C17 over the STATE MACHINES of the gaze-contingent losses REGENERATED from the Python source (`Generated/StateMachines.lean`)
+
+Every `__call__` (and `RadiallyVaryingBlur.blur`) is a step function `object → arguments → Option (object × value × stored attributes)`
+rewritten from `/repo` on every run; the tie theorems of `Lemmas/GenStateMachines*.lean` identify it with the keyed cache of section B.
+History independence is stated literally: along ANY call sequence on one object the value returned by call k is the value a newly built
+object returns for the arguments of call k.  Hypotheses, where there are any, are about the numerics the state machines do not
+interpret (`GazeOps`) and are spelled out. -/
+
+namespace Odak
+section GenStateMachines
+open Odak.Gen
+variable {T G R Shape Sub : Type} [DecidableEq G] [DecidableEq R] [DecidableEq Shape]
+
+/-- the keyed-cache theorem of section B in the vocabulary of step functions (`C17_cache_transparent` is the instance `step = cacheStep`) -/
+theorem C17_gen_keyed_cache_as_steps {K V : Type} [DecidableEq K] (f : K → V) (ks : List K) :
+    ∃ s', runSteps (fun s k => some (cacheStep f s k)) none ks = some (s', ks.map f) := by
+  obtain ⟨s', e, _⟩ := runSteps_of_invariant (fun s k => some (cacheStep f s k)) (KeyedInv f) (fun _ => True) f
+    (fun s k hs _ => ⟨_, by rw [← (cacheStep_spec f s hs k).2], (cacheStep_spec f s hs k).1⟩) ks none (keyedInv_none f) (fun _ _ => trivial)
+  exact ⟨s', e⟩
+
+/-! ## `RadiallyVaryingBlur.blur` -/
+
+/-- **history independence of the regenerated `blur`**: from ANY cache state that satisfies the invariant, for ANY sequence of calls
+    (image sizes, channel counts, foveation parameters, gaze, mode, equirectangular flag changing in any order) the source never raises and
+    call k returns the image rendered with the level-of-detail map and blend fraction of ITS OWN arguments -/
+theorem C17_gen_radial_blur_history_independent_from (E : GazeOps T G R Shape Sub) (c : Option (RBKey R G × (T × T)))
+    (hc : KeyedInv (rbValue E) c) (calls : List (BlurArgs T G R)) :
+    ∃ c', runSteps (rbStep E) (rbToSelf c) calls = some (rbToSelf c', calls.map (rbFresh E)) ∧ KeyedInv (rbValue E) c' := by
+  obtain ⟨s', e, c', rfl, hc'⟩ := runSteps_of_invariant (rbStep E) (fun s => ∃ c, s = rbToSelf c ∧ KeyedInv (rbValue E) c) (fun _ => True)
+    (rbFresh E)
+    (fun s x hs _ => by
+      obtain ⟨c, rfl, hc⟩ := hs
+      obtain ⟨h1, h2⟩ := cacheStep_spec (rbValue E) c hc (rbKey E x)
+      exact ⟨_, by rw [rbStep_eq, h2]; rfl, _, rfl, h1⟩)
+    calls (rbToSelf c) ⟨c, rfl, hc⟩ (fun _ _ => trivial)
+  exact ⟨c', e, hc'⟩
+
+/-- from a newly built object; and the documented value IS what a new object returns -/
+theorem C17_gen_radial_blur_history_independent (E : GazeOps T G R Shape Sub) (calls : List (BlurArgs T G R)) :
+    (∃ s', runSteps (rbStep E) RadiallyVaryingBlurSelf.init calls = some (s', calls.map (rbFresh E))) ∧
+    ∀ x, (rbStep E RadiallyVaryingBlurSelf.init x).map Prod.snd = some (rbFresh E x) := by
+  constructor
+  · obtain ⟨c', e, _⟩ := C17_gen_radial_blur_history_independent_from E none (keyedInv_none _) calls
+    exact ⟨_, e⟩
+  · intro x
+    have := rbStep_eq E none x
+    simp only [rbToSelf] at this
+    rw [this]
+    simp [cacheStep, rbFresh]
+
+/-- **the refresh condition is exactly "some input the cached map depends on changed"**: the regenerated `blur` stores attributes
+    (all twelve stores of the refresh branch, in source order) iff nothing is cached yet or the stored key - (size, channels, alpha,
+    width, distance, centre, mode, equi) - differs from the key of the call; otherwise it stores nothing -/
+theorem C17_gen_radial_blur_refresh_iff_key_changed (E : GazeOps T G R Shape Sub) (c : Option (RBKey R G × (T × T))) (x : BlurArgs T G R) :
+    (radiallyVaryingBlurBlurG E (rbToSelf c) x.image x.alpha x.real_image_width x.real_viewing_distance x.centre x.mode x.equi).map
+        (fun r => r.2.2) = some (if cacheMiss c (rbKey E x) then rbRefreshLog else []) ∧
+    (cacheMiss c (rbKey E x) = true ↔ (c = none ∨ ∃ k' v, c = some (k', v) ∧ k' ≠ rbKey E x)) := by
+  obtain ⟨image, a, w, d, g, m, e⟩ := x
+  exact ⟨by simp [gen_radiallyVaryingBlurBlurG_eq], C17_cache_miss_iff_key_changes c _⟩
+
+/-! ## `BlurLoss.__call__` -/
+
+/-- **history independence of the regenerated `BlurLoss.__call__`** (both values of `blur_source`): for ANY sequence of calls whose
+    inputs pass `check_loss_inputs`, call k returns `MSE(image or blurred image, blurred target)` with every blur computed for ITS OWN
+    image size and the gaze of call k - the value a new object returns -/
+theorem C17_gen_blur_loss_history_independent (E : GazeOps T G R Shape Sub) (cfg : BlurLossCfg R) (calls : List (LossArgs T G))
+    (hok : ∀ x ∈ calls, E.inputsOk x.image x.target = true) :
+    (∃ s', runSteps (blStep E cfg) BlurLossSelf.init calls = some (s', calls.map (blFresh E cfg))) ∧
+    ∀ x ∈ calls, (blStep E cfg BlurLossSelf.init x).map Prod.snd = some (blFresh E cfg x) := by
+  have step : ∀ s x, (∃ b, s = blToSelf b ∧ KeyedInv (rbValue E) (b.getD none)) → E.inputsOk x.image x.target = true →
+      ∃ s', blStep E cfg s x = some (s', blFresh E cfg x) ∧ ∃ b, s' = blToSelf b ∧ KeyedInv (rbValue E) (b.getD none) := by
+    rintro s x ⟨b, rfl, hb⟩ hx
+    obtain ⟨h1, h2⟩ := cacheStep_spec (rbValue E) (b.getD none) hb (rbKey E (blKey cfg x.target x.gaze))
+    obtain ⟨h3, h4⟩ := cacheStep_spec (rbValue E) _ h1 (rbKey E (blKey cfg x.image x.gaze))
+    rw [gen_blurLossCallG_eq E cfg b x hx]
+    cases hs : cfg.blur_source
+    · exact ⟨_, by simp [blFresh, rbFresh, hs, h2]; rfl, some _, rfl, h1⟩
+    · exact ⟨_, by simp [blFresh, rbFresh, hs, h2, h4]; rfl, some _, rfl, h3⟩
+  have init : ∃ b, (BlurLossSelf.init : BlurLossSelf T G R Shape Sub) = blToSelf b ∧ KeyedInv (rbValue E) (b.getD none) :=
+    ⟨none, rfl, keyedInv_none _⟩
+  constructor
+  · obtain ⟨s', e, _⟩ := runSteps_of_invariant (blStep E cfg) _ (fun x => E.inputsOk x.image x.target = true) (blFresh E cfg) step calls _ init hok
+    exact ⟨s', e⟩
+  · intro x hx
+    obtain ⟨s', e, _⟩ := step _ x init (hok x hx)
+    rw [e]; rfl
+
+/-! ## `MetamericLoss.__call__` -/
+
+/-- the regenerated `metameric_loss_stats` reads no attribute of the object: its value is a function of its arguments (in particular
+    the radial weights are those of the gaze passed in THIS call) -/
+theorem C17_gen_metameric_loss_stats_stateless (E : GazeOps T G R Shape Sub) (cfg : MetamericLossCfg R)
+    (s s' : MetamericLossSelf T G R Shape Sub) (A B : List T) (g : G) :
+    metamericLossMetamericLossStatsG E cfg s A B g = metamericLossMetamericLossStatsG E cfg s' A B g ∧
+    metamericLossMetamericLossStatsG E cfg s A B g = some (mlLossStats E cfg A B g) := by
+  rw [gen_metamericLossStatsG_eq, gen_metamericLossStatsG_eq]; exact ⟨rfl, rfl⟩
+
+/-- what the summary of `calc_statsmaps` / `visualise_loss_map` rests on [effect signatures recomputed from the source]: neither reads
+    nor writes the cached target, its gaze or (for `calc_statsmaps`) its statistics -/
+theorem C17_gen_calc_statsmaps_leaves_target_cache_alone :
+    (∀ a ∈ ["target", "target_gaze", "target_stats"], a ∉ metamericLossCalcStatsmapsReads ∧ a ∉ metamericLossCalcStatsmapsWrites) ∧
+    (∀ a ∈ ["target", "target_gaze", "target_stats"], a ∉ metamericLossVisualiseLossMapWrites) ∧
+    (∀ a ∈ ["target", "target_stats"], a ∉ metamericLossUniformCalcStatsmapsReads ∧ a ∉ metamericLossUniformCalcStatsmapsWrites) := by
+  decide
+
+/-- **history independence of the regenerated `MetamericLoss.__call__`** (every configuration: with / without the foveal L2 term,
+    radial weights, full-resolution L0, any mode; any `image_colorspace` / `visualise_loss` per call): if `calc_statsmaps` itself is
+    history-free on its sub-caches (`hcore`, invariant `I`) and tensor equality is shape + `torch.eq` (`hext`), then for ANY sequence of
+    calls whose inputs pass `check_loss_inputs` the source never raises and call k returns the documented value for ITS OWN image,
+    target and gaze - what a new object returns -/
+theorem C17_gen_metameric_loss_history_independent [DecidableEq T] (E : GazeOps T G R Shape Sub) (cfg : MetamericLossCfg R)
+    (stats : T → G → List T) (mask : T → G → T) (I : Sub → Prop)
+    (hcore : ∀ sub, I sub → ∀ x g, I (E.statsCore cfg sub x g cfg.alpha cfg.real_image_width cfg.real_viewing_distance cfg.mode).1 ∧
+      (E.statsCore cfg sub x g cfg.alpha cfg.real_image_width cfg.real_viewing_distance cfg.mode).2 = (stats x g, mask x g))
+    (hext : ∀ a b : T, a = b ↔ (E.shape a = E.shape b ∧ E.allEq b a = true))
+    (sub : Sub) (hsub : I sub) (calls : List (MLArgs T G)) (hok : ∀ x ∈ calls, E.inputsOk x.image x.target = true) :
+    (∃ s', runSteps (mlStep E cfg) (MetamericLossSelf.init sub) calls = some (s', calls.map (mlFresh E cfg stats mask))) ∧
+    ∀ x ∈ calls, (mlStep E cfg (MetamericLossSelf.init sub) x).map Prod.snd = some (mlFresh E cfg stats mask x) := by
+  have step : ∀ s x, (∃ c fm lm sub, s = mlToSelf c fm lm sub ∧ KeyedInv (fun k : G × T => stats k.2 k.1) c ∧ I sub) →
+      E.inputsOk x.image x.target = true →
+      ∃ s', mlStep E cfg s x = some (s', mlFresh E cfg stats mask x) ∧
+        ∃ c fm lm sub, s' = mlToSelf c fm lm sub ∧ KeyedInv (fun k : G × T => stats k.2 k.1) c ∧ I sub := by
+    rintro s x ⟨c, fm, lm, sub, rfl, hc, hs⟩ hx
+    obtain ⟨fm', lm', sub', log, hs', e, _⟩ := gen_metamericLossCallG_eq E cfg stats mask I hcore hext c fm lm sub hs x hx
+    obtain ⟨h1, h2⟩ := cacheStep_spec (fun k : G × T => stats k.2 k.1) c hc (mlKey E cfg x)
+    refine ⟨_, ?_, _, fm', lm', sub', rfl, h1, hs'⟩
+    simp only [mlStep, e, Option.map_some, h2]; rfl
+  have init : ∃ c fm lm sub', (MetamericLossSelf.init sub : MetamericLossSelf T G R Shape Sub) = mlToSelf c fm lm sub' ∧
+      KeyedInv (fun k : G × T => stats k.2 k.1) c ∧ I sub' := ⟨none, none, none, sub, rfl, keyedInv_none _, hsub⟩
+  constructor
+  · obtain ⟨s', e, _⟩ := runSteps_of_invariant (mlStep E cfg) _ (fun x => E.inputsOk x.image x.target = true) (mlFresh E cfg stats mask)
+      step calls _ init hok
+    exact ⟨s', e⟩
+  · intro x hx
+    obtain ⟨s', e, _⟩ := step _ x init (hok x hx)
+    rw [e]; rfl
+
+/-- **the refresh condition of `MetamericLoss` is exactly "the gaze or the prepared target changed"**: `target_stats` is stored in a
+    call iff nothing is cached or the stored (gaze, target) differs from the (gaze, prepared target) of the call -/
+theorem C17_gen_metameric_loss_refresh_iff_gaze_or_target_changed [DecidableEq T] (E : GazeOps T G R Shape Sub) (cfg : MetamericLossCfg R)
+    (stats : T → G → List T) (mask : T → G → T) (I : Sub → Prop)
+    (hcore : ∀ sub, I sub → ∀ x g, I (E.statsCore cfg sub x g cfg.alpha cfg.real_image_width cfg.real_viewing_distance cfg.mode).1 ∧
+      (E.statsCore cfg sub x g cfg.alpha cfg.real_image_width cfg.real_viewing_distance cfg.mode).2 = (stats x g, mask x g))
+    (hext : ∀ a b : T, a = b ↔ (E.shape a = E.shape b ∧ E.allEq b a = true))
+    (c : Option ((G × T) × List T)) (fm lm : Option T) (sub : Sub) (hsub : I sub) (x : MLArgs T G)
+    (hok : E.inputsOk x.image x.target = true) :
+    ∃ r, metamericLossCallG E cfg (mlToSelf c fm lm sub) x.image x.target x.gaze x.image_colorspace x.visualise_loss = some r ∧
+      ("target_stats" ∈ r.2.2 ↔ (c = none ∨ ∃ k' v, c = some (k', v) ∧ k' ≠ mlKey E cfg x)) := by
+  obtain ⟨fm', lm', sub', log, _, e, hl⟩ := gen_metamericLossCallG_eq E cfg stats mask I hcore hext c fm lm sub hsub x hok
+  exact ⟨_, e, hl.trans (C17_cache_miss_iff_key_changes c _)⟩
+
+/-! ## `MetamerMSELoss.__call__` -/
+
+/-- **history independence of the regenerated `MetamerMSELoss.__call__`** (with the regenerated `gen_metamer`): if the inner
+    `calc_statsmaps` is history-free on its sub-caches and the synthesis with the pyramid maker it leaves does not depend on earlier calls,
+    then for ANY call sequence call k returns `MSE(padded image, metamer(padded target, gaze))` for ITS OWN arguments -/
+theorem C17_gen_metamer_mse_history_independent [DecidableEq T] (E : GazeOps T G R Shape Sub) (cfgI : MetamericLossCfg R)
+    (stats : T → G → List T) (synth : List T → List T → T → T → Shape → T) (I : Sub → Prop)
+    (hcore : ∀ sub, I sub → ∀ x g, I (E.statsCore cfgI sub x g cfgI.alpha (E.lit "0.3") (E.lit "0.6") "quadratic").1 ∧
+      (E.statsCore cfgI sub x g cfgI.alpha (E.lit "0.3") (E.lit "0.6") "quadratic").2.1 = stats x g)
+    (hsynth : ∀ sub, I sub → ∀ x g a b n sz,
+      E.synthMetamer cfgI (E.statsCore cfgI sub x g cfgI.alpha (E.lit "0.3") (E.lit "0.6") "quadratic").1 a b n x sz = synth a b n x sz)
+    (hext : ∀ a b : T, a = b ↔ (E.shape a = E.shape b ∧ E.allEq b a = true))
+    (sub : Sub) (hsub : I sub) (calls : List (LossArgs T G)) (hok : ∀ x ∈ calls, E.inputsOk x.image x.target = true) :
+    (∃ s', runSteps (mmStep E cfgI) (MetamerMSELossSelf.init sub) calls =
+      some (s', calls.map (mmFresh E cfgI.n_pyramid_levels stats synth))) ∧
+    ∀ x ∈ calls, (mmStep E cfgI (MetamerMSELossSelf.init sub) x).map Prod.snd = some (mmFresh E cfgI.n_pyramid_levels stats synth x) := by
+  have step : ∀ s x, (∃ c inner, s = mmToSelf c inner ∧
+        KeyedInv (fun k : G × T => mmMetamer E cfgI.n_pyramid_levels stats synth k.2 k.1) c ∧ I inner.sub) →
+      E.inputsOk x.image x.target = true →
+      ∃ s', mmStep E cfgI s x = some (s', mmFresh E cfgI.n_pyramid_levels stats synth x) ∧
+        ∃ c inner, s' = mmToSelf c inner ∧ KeyedInv (fun k : G × T => mmMetamer E cfgI.n_pyramid_levels stats synth k.2 k.1) c ∧ I inner.sub := by
+    rintro s x ⟨c, inner, rfl, hc, hs⟩ hx
+    obtain ⟨inner', log, hs', e, _⟩ := gen_metamerMSELossCallG_eq E cfgI stats synth I hcore hsynth hext c inner hs x hx
+    obtain ⟨h1, h2⟩ := cacheStep_spec (fun k : G × T => mmMetamer E cfgI.n_pyramid_levels stats synth k.2 k.1) c hc
+      (x.gaze, E.pad x.target cfgI.n_pyramid_levels)
+    refine ⟨_, ?_, _, inner', rfl, h1, hs'⟩
+    simp only [mmStep, e, Option.map_some, h2]; rfl
+  have init : ∃ c inner, (MetamerMSELossSelf.init sub : MetamerMSELossSelf T G R Shape Sub) = mmToSelf c inner ∧
+      KeyedInv (fun k : G × T => mmMetamer E cfgI.n_pyramid_levels stats synth k.2 k.1) c ∧ I inner.sub :=
+    ⟨none, MetamericLossSelf.init sub, rfl, keyedInv_none _, hsub⟩
+  constructor
+  · obtain ⟨s', e, _⟩ := runSteps_of_invariant (mmStep E cfgI) _ (fun x => E.inputsOk x.image x.target = true)
+      (mmFresh E cfgI.n_pyramid_levels stats synth) step calls _ init hok
+    exact ⟨s', e⟩
+  · intro x hx
+    obtain ⟨s', e, _⟩ := step _ x init (hok x hx)
+    rw [e]; rfl
+
+/-! ## `MetamericLossUniform.__call__` -/
+
+/-- **history independence of the regenerated `MetamericLossUniform.__call__`, partial**: it needs the hypothesis `hz` that no call has a
+    prepared target equal to `zeros(target.shape)` (a new object takes that tensor for "the target of the previous call") -/
+theorem C17_gen_metameric_loss_uniform_history_independent_partial [DecidableEq T] (E : GazeOps T G R Shape Sub)
+    (cfg : MetamericLossUniformCfg R) (stats : T → List T) (I : Sub → Prop)
+    (hcore : ∀ sub, I sub → ∀ x, I (E.uniformStatsCore cfg sub x cfg.pooling_size).1 ∧
+      (E.uniformStatsCore cfg sub x cfg.pooling_size).2 = stats x)
+    (hext : ∀ a b : T, a = b ↔ (E.shape a = E.shape b ∧ E.allEq b a = true))
+    (sub : Sub) (hsub : I sub) (calls : List (MUArgs T))
+    (hok : ∀ x ∈ calls, E.inputsOk x.image x.target = true ∧ E.zeros (E.shape (muKey E cfg x)) ≠ muKey E cfg x) :
+    (∃ s', runSteps (muStep E cfg) (MetamericLossUniformSelf.init sub) calls = some (s', calls.map (muFresh E cfg stats))) ∧
+    ∀ x ∈ calls, (muStep E cfg (MetamericLossUniformSelf.init sub) x).map Prod.snd = some (muFresh E cfg stats x) := by
+  have step : ∀ s x, (∃ c lm sub, s = muToSelf c lm sub ∧ KeyedInv stats c ∧ I sub) →
+      (E.inputsOk x.image x.target = true ∧ E.zeros (E.shape (muKey E cfg x)) ≠ muKey E cfg x) →
+      ∃ s', muStep E cfg s x = some (s', muFresh E cfg stats x) ∧ ∃ c lm sub, s' = muToSelf c lm sub ∧ KeyedInv stats c ∧ I sub := by
+    rintro s x ⟨c, lm, sub, rfl, hc, hs⟩ ⟨hx, hz⟩
+    obtain ⟨lm', sub', log, hs', e, _⟩ := gen_metamericLossUniformCallG_eq E cfg stats I hcore hext c lm sub hs x hx (fun _ => hz)
+    obtain ⟨h1, h2⟩ := cacheStep_spec stats c hc (muKey E cfg x)
+    refine ⟨_, ?_, _, lm', sub', rfl, h1, hs'⟩
+    simp only [muStep, e, Option.map_some, h2]; rfl
+  have init : ∃ c lm sub', (MetamericLossUniformSelf.init sub : MetamericLossUniformSelf T G R Shape Sub) = muToSelf c lm sub' ∧
+      KeyedInv stats c ∧ I sub' := ⟨none, none, sub, rfl, keyedInv_none _, hsub⟩
+  constructor
+  · obtain ⟨s', e, _⟩ := runSteps_of_invariant (muStep E cfg) _
+      (fun x => E.inputsOk x.image x.target = true ∧ E.zeros (E.shape (muKey E cfg x)) ≠ muKey E cfg x) (muFresh E cfg stats) step calls _ init hok
+    exact ⟨s', e⟩
+  · intro x hx
+    obtain ⟨s', e, _⟩ := step _ x init (hok x hx)
+    rw [e]; rfl
+
+/-- why `hz` is needed (the regenerated source, not the hand model): on a NEW `MetamericLossUniform` object a call whose prepared target
+    is all zeros raises (the statistics of the target were never computed), while the same call after a call with another target
+    returns the documented value - the value of that call depends on the history -/
+theorem C17_gen_metameric_loss_uniform_zero_target_depends_on_history [DecidableEq T] (E : GazeOps T G R Shape Sub)
+    (cfg : MetamericLossUniformCfg R) (stats : T → List T) (I : Sub → Prop)
+    (hcore : ∀ sub, I sub → ∀ x, I (E.uniformStatsCore cfg sub x cfg.pooling_size).1 ∧
+      (E.uniformStatsCore cfg sub x cfg.pooling_size).2 = stats x)
+    (hext : ∀ a b : T, a = b ↔ (E.shape a = E.shape b ∧ E.allEq b a = true))
+    (sub : Sub) (hsub : I sub) (x y : MUArgs T) (hx : E.inputsOk x.image x.target = true) (hy : E.inputsOk y.image y.target = true)
+    (hvx : x.visualise_loss = false)
+    (hzero : muKey E cfg x = E.zeros (E.shape (muKey E cfg x))) (hynz : E.zeros (E.shape (muKey E cfg y)) ≠ muKey E cfg y) :
+    muStep E cfg (MetamericLossUniformSelf.init sub) x = none ∧
+    ∃ s', runSteps (muStep E cfg) (MetamericLossUniformSelf.init sub) [y, x] = some (s', [muFresh E cfg stats y, muFresh E cfg stats x]) := by
+  constructor
+  · have h := (hext _ _).1 hzero
+    have := gen_metamericLossUniform_zero_target_first_call_raises E cfg none sub x hvx (by rw [← hzero]) (by rw [← hzero] at h ⊢; exact h.2)
+    simp only [muStep]
+    have e : (MetamericLossUniformSelf.init sub : MetamericLossUniformSelf T G R Shape Sub) = muToSelf none none sub := rfl
+    rw [e, this]; rfl
+  · obtain ⟨lm1, sub1, log1, hs1, e1, _⟩ := gen_metamericLossUniformCallG_eq E cfg stats I hcore hext none none sub hsub y hy (fun _ => hynz)
+    obtain ⟨lm2, sub2, log2, hs2, e2, _⟩ := gen_metamericLossUniformCallG_eq E cfg stats I hcore hext
+      (cacheStep stats none (muKey E cfg y)).1 lm1 sub1 hs1 x hx (fun h => by simp [cacheStep] at h)
+    have i0 : (MetamericLossUniformSelf.init sub : MetamericLossUniformSelf T G R Shape Sub) = muToSelf none none sub := rfl
+    obtain ⟨k1, k2⟩ := cacheStep_spec stats none (keyedInv_none _) (muKey E cfg y)
+    obtain ⟨_, k4⟩ := cacheStep_spec stats _ k1 (muKey E cfg x)
+    refine ⟨muToSelf (cacheStep stats (cacheStep stats none (muKey E cfg y)).1 (muKey E cfg x)).1 lm2 sub2, ?_⟩
+    simp only [runSteps, muStep, i0, e1, e2, Option.map_some, Option.bind_some, k2, k4]; rfl
+
+/-! ## the fovea mask of `MetamericLoss.calc_statsmaps` -/
+
+/-- the regenerated per-pixel mask for a level of detail `0 ≤ lod ≤ max lod`: between 0 and 1, exactly 1 below the threshold `1e-6`,
+    0 where the level of detail is maximal (if the maximum reaches the threshold), and fovea + periphery = 1 -/
+theorem C17_gen_fovea_mask_range (lod lodMax : ℝ) (h0 : 0 ≤ lod) (hmax : lod ≤ lodMax) :
+    0 ≤ foveaMaskPixelG lod lodMax ∧ foveaMaskPixelG lod lodMax ≤ 1 ∧
+    (lod < 1 / 1000000 → foveaMaskPixelG lod lodMax = 1) ∧
+    (1 / 1000000 ≤ lodMax → foveaMaskPixelG lodMax lodMax = 0) ∧
+    foveaMaskPixelG lod lodMax + peripheryMaskPixelG lod lodMax = 1 := by
+  obtain ⟨e1, e2⟩ := gen_foveaMaskPixelG_eq lod lodMax
+  have e3 := (gen_foveaMaskPixelG_eq lodMax lodMax).1
+  have hfour : 1 / 1000000 ≤ lodMax → foveaMaskPixelG lodMax lodMax = 0 := by
+    intro h
+    have hne : lodMax ≠ 0 := by intro h0'; rw [h0'] at h; norm_num at h
+    rw [e3, if_neg (not_lt.2 h), div_self hne]; norm_num
+  have hsum : foveaMaskPixelG lod lodMax + peripheryMaskPixelG lod lodMax = 1 := by rw [e2]; ring
+  by_cases hl : lod < 1 / 1000000
+  · have f1 : foveaMaskPixelG lod lodMax = 1 := by rw [e1, if_pos hl]; norm_num
+    exact ⟨by rw [f1]; norm_num, by rw [f1], fun _ => f1, hfour, hsum⟩
+  · have hpos : 0 < lodMax := lt_of_lt_of_le (by norm_num) (le_trans (not_lt.1 hl) hmax)
+    have hq0 : 0 ≤ 1 - lod / lodMax := by
+      rw [sub_nonneg, div_le_one hpos]; exact hmax
+    have hq1 : 1 - lod / lodMax ≤ 1 := by
+      have : 0 ≤ lod / lodMax := div_nonneg h0 hpos.le
+      linarith
+    have f2 : foveaMaskPixelG lod lodMax = (1 - lod / lodMax) ^ 10 := by rw [e1, if_neg hl]
+    exact ⟨by rw [f2]; exact pow_nonneg hq0 _, by rw [f2]; exact pow_le_one₀ hq0 hq1, fun h => absurd h hl, hfour, hsum⟩
+
+/-- **when is the division by `torch.max(lod_map)` harmless?**  A pixel's value depends on the quotient only if its level of detail
+    is at least `1e-6`; then the maximum is at least `1e-6` too, so the divisor that reaches the output is never 0.  In particular,
+    if the maximum of a non-negative map is 0 (pooling regions below one pixel everywhere: small images, small `alpha`) every pixel is
+    below the threshold, the `0 / 0` of the first statement is overwritten by the second, and the mask is 1 everywhere (periphery 0) -/
+theorem C17_gen_fovea_mask_division_by_max (lod lodMax : ℝ) (hmax : lod ≤ lodMax) :
+    (¬ lod < 1 / 1000000 → lodMax ≠ 0) ∧
+    (lodMax = 0 → foveaMaskPixelG lod lodMax = 1 ∧ peripheryMaskPixelG lod lodMax = 0) := by
+  refine ⟨fun h hz => h (by rw [hz] at hmax; exact lt_of_le_of_lt hmax (by norm_num)), fun hz => ?_⟩
+  have hl : lod < 1 / 1000000 := by rw [hz] at hmax; exact lt_of_le_of_lt hmax (by norm_num)
+  obtain ⟨e1, e2⟩ := gen_foveaMaskPixelG_eq lod lodMax
+  have f1 : foveaMaskPixelG lod lodMax = 1 := by rw [e1, if_pos hl]; norm_num
+  exact ⟨f1, by rw [e2, f1]; norm_num⟩
+
+end GenStateMachines
+
+/-- non-vacuity: the regenerated blur on integer tokens - second call with the same key stores nothing, a changed gaze refreshes -/
+example :
+    let E : Gen.GazeOps Nat Nat Nat Nat Nat :=
+      { height := fun x => x, width := fun x => x, channels := fun _ => 1, shape := fun x => x, allEq := fun a b => a == b,
+        same := fun a b => a == b, inputsOk := fun _ _ => true, pad := fun x _ => x, ycrcb := fun x => x, rgb := fun x => x,
+        zeros := fun _ => 0, randLike := fun x => x, lit := fun _ => 0, scalar := fun x => x, nat := fun x => x, add := (· + ·),
+        sub := (· - ·), mul := (· * ·), div := (· / ·), mse := fun a b => a + b, fmod := fun x _ => x, repeatChannels := fun x _ => x,
+        lodPlain := fun g _ _ _ _ _ => g, lodEqui := fun g _ _ _ => g, radialMap := fun _ g => g, renderBlur := fun i l _ => i + l,
+        statsCore := fun _ s x g _ _ _ _ => (s, [x + g], g), visualise := fun _ _ => 0, uniformStatsCore := fun _ s x _ => (s, [x]),
+        synthMetamer := fun _ _ _ _ _ x _ => x }
+    (runSteps (rbStep E) Gen.RadiallyVaryingBlurSelf.init
+      [⟨8, 0, 0, 0, 5, "quadratic", false⟩, ⟨8, 0, 0, 0, 5, "quadratic", false⟩, ⟨8, 0, 0, 0, 7, "quadratic", false⟩]).map Prod.snd
+      = some [13, 13, 15] := by
+  decide
 
 end Odak
